@@ -754,6 +754,14 @@ var _ = sort.Ints
 
 // lookupIntrinsic resolves the intrinsic (or harness stub) for fn, if any.
 func lookupIntrinsic(m *Machine, fn *ssa.Function, name string) intrinsicFn {
+	// harness-declared stubs take precedence over built-in intrinsics
+	if target, ok := m.cfg.Stubs[name]; ok {
+		if hp := m.ld.prog.ImportedPackage(m.cfg.Pkg); hp != nil {
+			if sf := hp.Func(target); sf != nil {
+				return func(m *Machine, fn *ssa.Function, a []Value) Value { return m.callFn(sf, a, nil) }
+			}
+		}
+	}
 	if f, ok := intrinsics[name]; ok {
 		return f
 	}
